@@ -315,14 +315,35 @@ Commit(t, r, arb) ==
        ELSE LET x == ExecPrim(c, r.h, t, arb) IN
             /\ th' = [th EXCEPT ![t] = x.c] /\ heap' = x.h
 
+\* the step of thread t (enabled while t is live)
+ThreadNext(t) ==
+  /\ t \in DOMAIN th /\ Live(t)
+  /\ LET r == Run(th[t], heap, t, Fuel) IN
+     IF r.c.m = "prim" /\ r.c.pend.op = "ArbitraryInt"
+     THEN \E arb \in ArbChoices : Commit(t, r, arb)
+     ELSE Commit(t, r, <<>>)
+
 Next == /\ ~Finished
         /\ UNCHANGED test
-        /\ \E t \in DOMAIN th :
-             /\ Live(t)
-             /\ LET r == Run(th[t], heap, t, Fuel) IN
-                IF r.c.m = "prim" /\ r.c.pend.op = "ArbitraryInt"
-                THEN \E arb \in ArbChoices : Commit(t, r, arb)
-                ELSE Commit(t, r, <<>>)
+        /\ \E t \in DOMAIN th : ThreadNext(t)
+
+\* fairness used for the termination clause of concurrent programs: every live thread keeps taking steps
+\* (weak fairness), and a compare-and-exchange that is enabled to SUCCEED infinitely often eventually
+\* succeeds (strong fairness) - i.e. spin locks are fair.  Under these assumptions every behaviour of a
+\* program whose Go result is schedule independent must reach Finished.
+TStep(t) == ~Finished /\ UNCHANGED test /\ ThreadNext(t)
+CasSucceeds(t) ==
+  /\ ~Finished /\ UNCHANGED test
+  /\ t \in DOMAIN th /\ Live(t)
+  /\ LET r == Run(th[t], heap, t, Fuel) IN
+     /\ r.c.m = "prim" /\ r.c.pend.op = "CmpXchg"
+     /\ Has(r.h, r.c.pend.args[1]) /\ r.h[r.c.pend.args[1].l].s = 0
+     /\ ValEq(r.h[r.c.pend.args[1].l].v, r.c.pend.args[2])
+     /\ Commit(t, r, <<>>)
+CONSTANT TIDs
+Fairness == \A t \in TIDs : WF_vars(TStep(t)) /\ SF_vars(CasSucceeds(t))
+LiveSpec == Init /\ [][Next]_vars /\ Fairness
+Terminates == <>Finished
 
 Spec == Init /\ [][Next]_vars
 =============================================================================
